@@ -94,7 +94,8 @@ fn main() {
                 }
                 "ssmall" => {
                     exhaustive = true;
-                    ssmall(&mut g, if thorough { 4 } else { 3 }, shard, nshards);
+                    ssmall(&mut g, 2, if thorough { 4 } else { 3 }, shard, nshards);
+                    ssmall(&mut g, 3, if thorough { 3 } else { 2 }, shard, nshards);
                 }
                 "srand" => srand(&mut g, &mut r, if thorough { 3000 } else { 150 }, if thorough { 120 } else { 30 }),
                 "twide" => twide(&mut g, &mut r, if thorough { 12 } else { 2 }, if thorough { 900 } else { 420 }),
